@@ -1782,6 +1782,7 @@ def stream_real(ctx, env):
         prf = Proof()
         prf.items = [blk, fil, X] if order == 0 else [X, blk]
         shared_cases.append(("B1-shared-%d" % order, prf))
+    theory.thy = theory.EmptyTheory()
     for name, prf in shared_cases:
         for ng in (False, True):
             try:
